@@ -252,22 +252,40 @@ func ruleR08(c *Ctx) {
 				})
 			}
 		}
-		if u := tk.Methods["Range"]; u != nil {
-			ast.Inspect(u.Body, func(n ast.Node) bool {
-				call, ok := n.(*ast.CallExpr)
-				if !ok || m.calleeName(call) != "rangeScan" || len(call.Args) < 5 {
-					return true
-				}
-				sig := func(i int) string {
-					if v := identVar(info, call.Args[i]); v != nil {
-						return c.keySignature(u, v, cs)
+		if ru := tk.Methods["Range"]; ru != nil {
+			// the scan is started by Range itself or by a helper of the tree it hands its bounds to
+			// (between(lo, hi)): the derivation is read where the rangeScan call is
+			var scanIn func(u *FuncUnit, depth int) bool
+			scanIn = func(u *FuncUnit, depth int) bool {
+				found := false
+				ast.Inspect(u.Body, func(n ast.Node) bool {
+					call, ok := n.(*ast.CallExpr)
+					if !ok || found {
+						return !found
 					}
-					return "?"
-				}
-				roleA["Range.lower"], roleA["Range.upper"] = sig(1), sig(2)
-				roleB["Range.lower"], roleB["Range.upper"] = sig(3), sig(4)
-				return true
-			})
+					if m.calleeName(call) == "rangeScan" && len(call.Args) >= 5 {
+						sig := func(i int) string {
+							if v := identVar(info, call.Args[i]); v != nil {
+								return c.keySignature(u, v, cs)
+							}
+							return "?"
+						}
+						roleA["Range.lower"], roleA["Range.upper"] = sig(1), sig(2)
+						roleB["Range.lower"], roleB["Range.upper"] = sig(3), sig(4)
+						found = true
+						return false
+					}
+					if cu := m.calleeUnit(call); cu != nil && cu.Lit == nil && cu != u && cu.Recv == ru.Recv && depth < 2 {
+						if scanIn(cu, depth+1) {
+							found = true
+							return false
+						}
+					}
+					return true
+				})
+				return found
+			}
+			scanIn(ru, 0)
 		}
 		check := func(role string, sigs map[string]string, want int) {
 			key := fmt.Sprintf("%s one key normalisation for %s", tk.Name, role)
